@@ -109,7 +109,8 @@ _REX_NOTE = ('Trusted: Python re semantics. The extraction pipeline (1,500 lines
              'contracts; the end-to-end sentence is decided only on the enumerated/seeded inputs stated in the evidence.')
 CHECKS['C03'] = dict(
    category='other',
-   text='Mixed. Decided by complete enumeration of finite domains on the real functions (exhaustive-domain obligations): for all '
+   text='Mixed. Proved on the real rexpy.py: fragment2re renders a quantifier covering the run-length range; Extractor.clean keeps exactly the examples no option discards and counts every stripped one (the count that switches on the \\s* padding). '
+        'Decided by complete enumeration of finite domains on the real functions (exhaustive-domain obligations): for all '
         '1,112,064 Unicode scalar values coarse_classify_char and fine_class return a class whose expression matches the character, '
         'escape(c) matches exactly c, the portable/grep Digit class contains what the internal class does; escaped_bracket denotes '
         'exactly its set for every set of 2..4 (quick) / 2..5 (thorough, the complete default call-site domain) punctuation characters. '
@@ -145,12 +146,15 @@ CHECKS['C18'] = dict(
         'weighted by their frequencies, or counted once each under dedup - that re.match of the expression compiled with UNICODE|DOTALL accepts '
         '(example lists of any length; expression lists of length 0..3; re.match uninterpreted); Examples.update sets the distinct count to the number of '
         'stored strings and the example count to the sum of the stored frequencies; Extractor.coverage / incremental_coverage / full_incremental_coverage '
-        'hand exactly the result expressions, the stored examples and the dedup flag to the module functions, and n_examples returns the stored count. '
+        'hand exactly the result expressions, the stored examples and the dedup flag to the module functions, and n_examples returns the stored count; '
+        'Extractor.clean stores exactly the kept examples (not null, count not 0, not empty when empties are removed) after optional stripping, each with the total of its counts, for lists, frequency dictionaries and Examples objects of <= 3 symbolic entries; '
+        'coverage_matrices holds each example frequency exactly where the expression matches; matrices2incremental_coverage (the greedy loop) credits every matched example to exactly one expression, in non-increasing order, with counts summing to the matched total - '
+        'for every match matrix of <= 3 expressions x 3 examples (quick: 3 x 2 / 2 x 3) with symbolic frequencies; rex_incremental_coverage returns the with- or without-repeats count as requested. '
         'Bounded (labelled; complete for its finite family): every match matrix of <= 3 expressions x 3 examples x frequencies {1,3} x dedup through rex_coverage and the incremental functions. '
         'Bounded (labelled): coverage() equals an independent count of matching examples (with and without repeats), n_examples equals '
         'the number supplied, incremental coverage is non-increasing, sums to the total and credits each example to exactly one expression '
         '(replayed greedily) - over the C03 drivers with repeats.',
-   note=_REX_NOTE + ' The greedy loop of matrices2incremental_coverage and Extractor.clean (which builds the stored frequencies) are not under deductive contracts.',
+   note=_REX_NOTE + ' Matrix shapes and input sizes of the clean / greedy-loop proofs are enumerated (stated above); contents are symbolic.',
    technique='contract-based deductive verification of the coverage counters (shared partial-sum functions) + exhaustive match matrices + bounded runtime contracts against an independent count',
    design_ref='DESIGN.md 5 C18')
 
